@@ -56,3 +56,9 @@ for seed in seeds:
         print(f"      {p}: {res[p][1]}")
     matrix[seed] = {"fired": fired, "errors": errs, "detail": {p: res[p][1] for p in fired + errs}}
 json.dump(matrix, open(os.path.join(VERIF, "refactors", "MATRIX.json"), "w"), indent=1)
+if not args:
+    with open(os.path.join(VERIF, "refactors", "MATRIX.md"), "w") as fh:
+        fh.write("# Behaviour-preserving refactorings x checks (quick tier): all must be silent\n\n| change | checks that fire (exit 1) | analysis errors (exit 2) |\n|---|---|---|\n")
+        for seed in seeds:
+            m = matrix[seed]
+            fh.write(f"| {seed} | {', '.join(m['fired']) or '-'} | {', '.join(m['errors']) or '-'} |\n")
